@@ -146,6 +146,24 @@ def kwarg_of_call(fname, k, arg_index):
     return finder
 
 
+def slice_bound(target, which):
+    """lower / upper bound of the first slice `xs[lo:hi]` found in the first assignment
+    `target = ...` whose value contains a slice (a missing lower bound is the constant 0)"""
+    def finder(fn):
+        for n in ast.walk(fn):
+            if isinstance(n, ast.Assign) and len(n.targets) == 1 and ast.unparse(n.targets[0]) == target:
+                for m in ast.walk(n.value):
+                    if isinstance(m, ast.Subscript) and isinstance(m.slice, ast.Slice) and m.slice.step is None:
+                        b = m.slice.lower if which == "lower" else m.slice.upper
+                        if b is None:
+                            if which == "lower":
+                                return ast.copy_location(ast.Constant(0), m)
+                            raise Untranslatable(f"slice of {target} has no upper bound")
+                        return b
+        raise Untranslatable(f"slice assigned to {target} not found in {fn.name}")
+    return finder
+
+
 OCC_ENV = {"input_shape[0]": "dim", "input_shape[1]": "dim",
            "patch_size": "p", "patch_size[0]": "p", "patch_size[1]": "p",
            "patch_stride": "s", "patch_stride[0]": "s", "patch_stride[1]": "s",
@@ -154,6 +172,12 @@ GS_ENV = {"batch_size": "bs", "self.batch_size": "bs", "self.nb_samples": "nb",
           "nb_samples": "nb",
           "perturbation_batch_size": "pbs", "self.perturbation_batch_size": "pbs",
           "total_perturbed_samples": "tot"}
+
+SPLIT_ENV = {"nb_design": "n", "i": "i"}
+# `int(self.patch_size * 0.80)`: the float constant 0.80 is translated as the rational 4/5 (floor division);
+# any other constant is untranslatable (broken obligation)
+CRAFT_ENV = {"len(dataset)": "len", "batch_size": "bs", "i": "i",
+             "self.patch_size * 0.8": "(Int.fdiv (p * (4 : Int)) (5 : Int))"}
 
 # name, params, file, class, function, finder, env, reference translation
 TABLE = [
@@ -185,6 +209,31 @@ TABLE = [
      assign_value("self.inputs_batch_size"), GS_ENV, "(max (1 : Int) (Int.fdiv bs pbs))"),
     ("mufChunk", "pbs nb tot", "metrics/fidelity.py", "MuFidelity", "evaluate",
      assign_value("nb_perturbations"), GS_ENV, "(min pbs (nb - tot))"),
+    # --- C08: sobol_estimators.py split_abc slice bounds -------------------------------------
+    ("splitALo", "n", "attributions/global_sensitivity_analysis/sobol_estimators.py", "SobolEstimator",
+     "split_abc", slice_bound("sampling_a", "lower"), SPLIT_ENV, "(0 : Int)"),
+    ("splitAHi", "n", "attributions/global_sensitivity_analysis/sobol_estimators.py", "SobolEstimator",
+     "split_abc", slice_bound("sampling_a", "upper"), SPLIT_ENV, "n"),
+    ("splitBLo", "n", "attributions/global_sensitivity_analysis/sobol_estimators.py", "SobolEstimator",
+     "split_abc", slice_bound("sampling_b", "lower"), SPLIT_ENV, "n"),
+    ("splitBHi", "n", "attributions/global_sensitivity_analysis/sobol_estimators.py", "SobolEstimator",
+     "split_abc", slice_bound("sampling_b", "upper"), SPLIT_ENV, "(n * (2 : Int))"),
+    ("splitCLo", "n i", "attributions/global_sensitivity_analysis/sobol_estimators.py", "SobolEstimator",
+     "split_abc", slice_bound("replication_c", "lower"), SPLIT_ENV, "((n * (2 : Int)) + (n * i))"),
+    ("splitCHi", "n i", "attributions/global_sensitivity_analysis/sobol_estimators.py", "SobolEstimator",
+     "split_abc", slice_bound("replication_c", "upper"), SPLIT_ENV,
+     "((n * (2 : Int)) + (n * (i + (1 : Int))))"),
+    # --- C20: craft_torch.py _batch_inference chunking and patch stride ------------------------
+    ("craftNbBatches", "len bs", "concepts/craft_torch.py", None, "_batch_inference",
+     nth_call("ceil", 0), CRAFT_ENV, "(-(Int.fdiv (-len) bs))"),
+    ("craftStart", "i bs", "concepts/craft_torch.py", None, "_batch_inference",
+     listcomp_elt("start_ids", 0), CRAFT_ENV, "(i * bs)"),
+    ("craftBatchLo", "i bs", "concepts/craft_torch.py", None, "_batch_inference",
+     slice_bound("batch", "lower"), CRAFT_ENV, "i"),
+    ("craftBatchHi", "i bs", "concepts/craft_torch.py", None, "_batch_inference",
+     slice_bound("batch", "upper"), CRAFT_ENV, "(i + bs)"),
+    ("craftStride", "p", "concepts/craft_torch.py", "CraftTorch", "_extract_patches",
+     assign_value("strides"), CRAFT_ENV, "(Int.fdiv (p * (4 : Int)) (5 : Int))"),
 ]
 
 
